@@ -2,6 +2,7 @@
 // C02 (red-black rules after every insert/erase) and the bintree/rbtree part
 // of C15 (clear hands over each element exactly once, tree reusable).
 #include "common/verif.hpp"
+#include <cmath>
 extern "C" {
 #include "cstl/bintree.h"
 #include "cstl/rbtree.h"
@@ -42,6 +43,7 @@ const int NMAXLIVE = 11;
 int g_priv_token;
 int g_cmp_kind;
 const char *g_cmp_clause = "C01.cmp.priv";
+uint64_t g_cmp_calls;
 int key_class(int k) { return g_cmp_kind == 2 ? k / 2 : k; }
 int cmp_keys(int a, int b)
 {
@@ -56,7 +58,19 @@ int cmp_keys(int a, int b)
 int cmp_cb(const void *a, const void *b, void *p)
 {
     CHECK_NOTHROW(p == &g_priv_token, g_cmp_clause, "compare function received a different priv pointer");
+    g_cmp_calls++;
     return cmp_keys(((const Elem *)a)->key, ((const Elem *)b)->key);
+}
+// C02: "... so find, insert and erase stay logarithmic": one library call on a red-black tree of n elements makes at
+// most a constant times the height bound 2*log2(n+1) comparisons (twice that bound plus slack is allowed here, which
+// covers implementations that compare twice per level; a walk along the equal elements does not fit)
+void cost_check(bool rb, size_t n, uint64_t c0, const char *what)
+{
+    if (!rb || !(g_prop == "C02" || g_prop.empty())) return;
+    uint64_t calls = g_cmp_calls - c0;
+    double bound = 2.0 * (2.0 * std::log2((double)n + 1.0)) + 8.0;
+    CHECK((double)calls <= bound, "C02.log_cost", "%s on a red-black tree of %zu elements made %llu comparisons (2*log2(n+1) = %.1f)", what, n,
+          (unsigned long long)calls, 2.0 * std::log2((double)n + 1.0));
 }
 
 struct Visit { const Elem *e; int ord; };
@@ -136,14 +150,16 @@ struct Tree {
     }
     // library calls
     size_t size() { size_t s; LIB(s = rb ? cstl_rbtree_size(&rt) : cstl_bintree_size(&bt)); return s; }
-    void insert(Elem *e, void *p) { LIB(if (rb) cstl_rbtree_insert(&rt, e, p); else cstl_bintree_insert(&bt, e, p)); }
+    void insert(Elem *e, void *p) { uint64_t c0 = g_cmp_calls; LIB(if (rb) cstl_rbtree_insert(&rt, e, p); else cstl_bintree_insert(&bt, e, p)); cost_check(rb, n, c0, "insert"); }
     const void *find(const Elem *probe, const void **par)
     {
         const void *r;
+        uint64_t c0 = g_cmp_calls;
         LIB(r = rb ? cstl_rbtree_find(&rt, probe, par) : cstl_bintree_find(&bt, probe, par));
+        cost_check(rb, n, c0, "find");
         return r;
     }
-    void *erase(const Elem *probe) { void *r; LIB(r = rb ? cstl_rbtree_erase(&rt, probe) : cstl_bintree_erase(&bt, probe)); return r; }
+    void *erase(const Elem *probe) { void *r; uint64_t c0 = g_cmp_calls; LIB(r = rb ? cstl_rbtree_erase(&rt, probe) : cstl_bintree_erase(&bt, probe)); cost_check(rb, n, c0, "erase"); return r; }
     int foreach(WalkCtx *c, int dir)
     {
         int r;
